@@ -72,7 +72,8 @@ class IsolationScenario(StateScenario):
                              depth=rng.choice([1, 2, 2, 3]), p_validator=0.0)
 
     def weights(self, rng):
-        return {"set": 4, "assign_sub": 2, "load_tree": 2, "loads": 1, "reset": 2, "lop": 6, "dop": 4, "ctor": 0.5, "dyn": 2, "deep": 2}
+        return {"set": 4, "assign_sub": 2, "load_tree": 2, "loads": 1, "reset": 2, "lop": 6, "dop": 4, "ctor": 0.5, "dyn": 2, "deep": 2,
+                "set_from": 2.5, "render": 2}
 
     def header(self, seed, avoid):
         h = super().header(seed, avoid)
@@ -93,9 +94,13 @@ class IsolationScenario(StateScenario):
         st.Bc = schema.build(st.sd)
         st.control = st.Bc.root()
         st.control0 = snapshot.snap(st.control, None)
-        st.schema0 = schema_snap(st.B.root)
-        st.types0 = {n: schema_snap(t.__schema__) for n, t in st.B.types.items()}
-        st.shared0 = {n: schema_snap(s) for n, s in st.B.shared.items()}
+        # the reference for "the schema is unchanged" is a third build of the same descriptor from which no
+        # configuration was ever created (building a configuration must not alter the schema either)
+        st.Bz = schema.build(st.sd)
+        st.schema0 = schema_snap(st.Bz.root)
+        st.types0 = {n: schema_snap(t.__schema__) for n, t in st.Bz.types.items()}
+        st.shared0 = {n: schema_snap(s) for n, s in st.Bz.shared.items()}
+        self.check_schema(st, rec, "construct")
         return st
 
     def gen_op(self, st, rng):
